@@ -28,6 +28,19 @@ SENTINELS = {"", "NaT", "nan", "NaN", "None"}
 def _plan(draw, max_rows):
     n = draw(st.integers(1, max_rows))
     k = draw(st.integers(1, 4))
+    if draw(st.integers(0, 24)) == 0:
+        # a long frame whose columns start with a long run of missing values (type guessing looks at the leading cells)
+        n = draw(st.sampled_from([101, 130, 257]))
+        lead = draw(st.sampled_from([99, 100, 101, n - 1]))
+        nm = draw(gen.names(k))
+        nm = [x if x else "blank" for x in nm]
+        cols = []
+        for j in range(k):
+            kind = draw(st.sampled_from(["s", "s", "f", "d", "ob", "t"]))
+            base = [v for v in gen.TIGHT[kind] if not build.plan_isna(kind, v)]
+            cols.append({"name": nm[j], "kind": kind,
+                         "vals": [gen.NA_VALUE[kind]] * lead + [base[i % len(base)] for i in range(n - lead)]})
+        return {"frame": {"n": n, "cols": cols}}
     nm = draw(gen.names(k))
     nm = [x if x else "blank" for x in nm]
     cols = []
